@@ -87,7 +87,7 @@ def probe_term(p):
                  for t, m in p["maps"] if m)
     evs = clist(f"(REv {clist(map(cnat, e['types']))} {cstr(e['name'])} {copt(e['desc'], cnat)} "
                 f"{cbool(e['is_factory'])})" for e in p["events"])
-    calls = clist(f"({cnat(f)}, {cnat(n)})" for f, n in p["calls"])
+    calls = clist(f"(({cnat(t)}, {cstr(nm)}), {cnat(n)})" for t, nm, n in p["calls"])
     return f"(P1 {cbool(p['closed'])} {maps} {evs} {calls})"
 
 
@@ -172,9 +172,27 @@ def shadow_life(result):
 def oracle_C02(result):
     bad = []
     steps = result["steps"]
+    vis_fac = []     # per context: key -> factory id visible there (snapshot at creation + own adds)
+    begun = {}
     for i, s in enumerate(steps):
         op, out, probe = s["op"], s["out"], s["probe"]
         prev = steps[i - 1]["probe"] if i else []
+        if op["op"] == "New" and out["k"] == "OK":
+            vis_fac.append(dict(vis_fac[op["p"]]) if op["p"] is not None else {})
+        if op["op"] == "AddFactory" and out["k"] == "OK":
+            for t in op["types"]:
+                vis_fac[op["c"]][(t, op["name"])] = op["f"]
+        if op["op"] == "GetBegin":
+            begun[(op["c"], op["tok"])] = (op["t"], op["name"])
+        if op["op"] in ("GetNowait", "GetBegin", "GetEnd"):
+            key = (op["t"], op["name"]) if "t" in op else begun.get((op["c"], op["tok"]))
+            vf = vis_fac[op["c"]]
+            if out["k"] == "Val" and is_gen(out["v"]) and vf.get(key) != out["v"][2]:
+                bad.append(("C02:factory-leak", f"step {i}: lookup of {key} in context {op['c']} was served by "
+                            f"factory {out['v'][2]}, which is not visible there (visible: {vf.get(key)})", i))
+            if (out["k"] == "NoneVal" or (out["k"] == "Err" and out["e"] == "NotFound")) and key in vf:
+                bad.append(("C02:factory-invisible", f"step {i}: lookup of {key} in context {op['c']} found "
+                            f"nothing although factory {vf[key]} is visible there", i))
         if op["op"] == "New":
             if out["k"] != "OK":
                 continue
@@ -214,6 +232,7 @@ def oracle_C03(result):
     steps = result["steps"]
     seen = {}      # (ctx, t, name) -> value first seen
     expected_td = {}  # ctx -> stack of callback ids successfully registered
+    begun = {}
     life = shadow_life(result)
     for i, s in enumerate(steps):
         op, out, probe = s["op"], s["out"], s["probe"]
@@ -229,8 +248,15 @@ def oracle_C03(result):
             for (jj, t, n), v in seen.items():
                 if jj == j and not p["closed"] and maps_of(p).get(t, {}).get(n) is None:
                     bad.append(("C03:vanished", f"step {i}: context {j} lost ({t},{n!r})", i))
-        if op["op"] in ("GetNowait", "GetBegin", "GetEnd") and out["k"] == "Val" and "t" in op:
-            k = (op["c"], op["t"], op["name"])
+        if op["op"] == "GetBegin":
+            begun[(op["c"], op["tok"])] = (op["t"], op["name"])
+        if op["op"] in ("GetNowait", "GetBegin", "GetEnd") and out["k"] == "Val":
+            t_, n_ = (op["t"], op["name"]) if "t" in op else begun[(op["c"], op["tok"])]
+            k = (op["c"], t_, n_)
+            now = maps_of(probe[op["c"]]).get(t_, {}).get(n_)
+            if now != tuple(out["v"]) and not probe[op["c"]]["closed"]:
+                bad.append(("C03:lookup-not-bound", f"step {i}: lookup {k} returned {out['v']} but the pair "
+                            f"resolves to {now} afterwards", i))
             if k in seen and seen[k] != tuple(out["v"]):
                 bad.append(("C03:lookup-changed", f"step {i}: lookup {k} returned {out['v']}, earlier {seen[k]}", i))
         if op["op"] in ("AddResource", "AddFactory", "AddTeardown"):
@@ -282,7 +308,8 @@ def oracle_C04(result):
         op, out, probe = s["op"], s["out"], s["probe"]
         prev = steps[i - 1]["probe"] if i else []
         for j, p in enumerate(probe):
-            for f, n in p["calls"]:
+            for ft, fn, n in p["calls"]:
+                f = (ft, fn)
                 if n > 1:
                     sig = "C04:factory-called-twice"
                     if overlapping_generation(result, i):
@@ -366,15 +393,22 @@ def oracle_C18(result):
                             "is_factory": False}]
                 elif op["op"] == "AddFactory" and out["k"] == "OK":
                     exp = [{"types": op["types"], "name": op["name"], "desc": op["desc"], "is_factory": True}]
-                elif op["op"] in ("GetNowait", "GetBegin", "GetEnd") and out["k"] == "Val" and is_gen(out["v"]):
-                    # a first generation iff the object was not visible before this step
+                elif op["op"] in ("GetNowait", "GetBegin", "GetEnd"):
+                    # a first generation iff a generated object becomes visible in this step; the event
+                    # names exactly the types under which it is now registered
                     before = {tuple(v) for m in maps_of(prev[j]).values() for v in m.values()}
-                    if tuple(out["v"]) not in before:
-                        exp = "one-generation-event"
+                    newgen = {}
+                    for t, m in maps_of(p).items():
+                        for n, v in m.items():
+                            if is_gen(v) and tuple(v) not in before:
+                                newgen.setdefault((tuple(v), n), set()).add(t)
+                    if newgen:
+                        exp = [("gen", n, ts) for (v, n), ts in newgen.items()]
             got = [{k: e[k] for k in ("types", "name", "desc", "is_factory")} for e in new]
-            if exp == "one-generation-event":
-                ok = len(got) == 1 and not got[0]["is_factory"] and ("name" not in op or got[0]["name"] == op["name"]) \
-                    and ("t" not in op or op["t"] in got[0]["types"])
+            if exp and isinstance(exp[0], tuple):
+                ok = len(got) == 1 and len(exp) == 1 and not got[0]["is_factory"] and got[0]["name"] == exp[0][1] \
+                    and set(got[0]["types"]) == exp[0][2] and len(got[0]["types"]) == len(exp[0][2])
+                exp = [{"name": exp[0][1], "types": sorted(exp[0][2]), "is_factory": False}]
             else:
                 ok = got == exp
             if not ok:
@@ -437,7 +471,7 @@ def shrink(ck: Check, result, oracle, sig):
 
 def run_property(ck: Check, mask: str, oracle, fixed=None, extra_cov=None):
     ck.trusted = RES_TRUST
-    ck.prove(extra_targets=["Corr/Check_res.v"])
+    ck.prove(extra_targets=["Corr/Check_res.v", "Ctx/ResExamples.v"])
     results = collect(ck, ck.n(1200, 30000), 18, fixed)
     terms = [case_term(r) for r in results]
     bad = ck.coq_eval("res", HEADER, terms, "res_case", f"check_res {mask}", shard=150)
@@ -506,3 +540,41 @@ def replay_generic(ck: Check, obj, oracle, mask) -> int:
     mism = ck.coq_eval("replay", HEADER, [case_term(rr)], "res_case", f"check_res {mask}")
     print("model/implementation correspondence:", "DISAGREE" if mism else "agree")
     return 1 if bad or mism else 0
+
+
+# histories that always run first: regression corpus of minimised failures and the witnesses of
+# the findings repaired in /repo (F2, F3, F4, F5, F14)
+def _h(*ops):
+    return [dict(o) for o in ops]
+
+
+_N, _E = {"op": "New", "p": None}, {"op": "Enter", "c": 0}
+FIXED_HISTORIES = [
+    # F2: async lookup then child must not inherit the generated object
+    _h(_N, _E, {"op": "AddFactory", "c": 0, "f": 0, "kind": "FAsyncImm", "name": "default", "types": [0], "desc": None},
+       {"op": "GetBegin", "c": 0, "tok": 0, "t": 0, "name": "default", "optional": False},
+       {"op": "New", "p": 0}, {"op": "GetResources", "c": 1, "t": 0}),
+    # F3: bad teardown callback leaves nothing registered
+    _h(_N, _E, {"op": "AddResource", "c": 0, "v": 1, "vty": 0, "name": "x", "types": [], "desc": None, "cb": "bad"},
+       {"op": "GetNowait", "c": 0, "t": 0, "name": "x", "optional": True}),
+    # F4: multi-type factory generation must not replace a taken pair
+    _h(_N, _E, {"op": "AddResource", "c": 0, "v": 1, "vty": 1, "name": "default", "types": [], "desc": None, "cb": None},
+       {"op": "AddFactory", "c": 0, "f": 0, "kind": "FSync", "name": "default", "types": [0, 1], "desc": None},
+       {"op": "GetNowait", "c": 0, "t": 1, "name": "default", "optional": False},
+       {"op": "GetNowait", "c": 0, "t": 0, "name": "default", "optional": False},
+       {"op": "GetNowait", "c": 0, "t": 1, "name": "default", "optional": False}),
+    # F5: two racing async lookups, one generation
+    _h(_N, _E, {"op": "AddFactory", "c": 0, "f": 0, "kind": "FAsyncSusp", "name": "default", "types": [0, 1], "desc": 2},
+       {"op": "GetBegin", "c": 0, "tok": 0, "t": 0, "name": "default", "optional": False},
+       {"op": "GetBegin", "c": 0, "tok": 1, "t": 1, "name": "default", "optional": False},
+       {"op": "GetBegin", "c": 0, "tok": 2, "t": 0, "name": "default", "optional": True},
+       {"op": "GetEnd", "c": 0, "tok": 0}, {"op": "GetEnd", "c": 0, "tok": 1}, {"op": "GetEnd", "c": 0, "tok": 2},
+       {"op": "GetNowait", "c": 0, "t": 1, "name": "default", "optional": False}),
+    # F14: a resource added under the requested pair while its factory is running
+    _h(_N, _E, {"op": "AddFactory", "c": 0, "f": 0, "kind": "FAsyncSusp", "name": "default", "types": [0, 1], "desc": None},
+       {"op": "GetBegin", "c": 0, "tok": 0, "t": 0, "name": "default", "optional": False},
+       {"op": "AddResource", "c": 0, "v": 1, "vty": 0, "name": "default", "types": [], "desc": None, "cb": None},
+       {"op": "GetEnd", "c": 0, "tok": 0},
+       {"op": "GetNowait", "c": 0, "t": 0, "name": "default", "optional": False},
+       {"op": "GetNowait", "c": 0, "t": 1, "name": "default", "optional": False}),
+]
